@@ -16,7 +16,7 @@ from mc.ref import interp, tracegrammar
 
 ALPHA_FULL = ["src", "srcdef", "paysrc", "mul", "muldef", "ctxw", "fail", "badw", "interrupt", "abort", "sysexit", "sum", "probe_factor",
               "ren_r_factor", "del_factor", "slice_mul", "sweep_op", "sink_ctx", "bogus", "probe_nokey", "unknown", "two",
-              "slice_mul3", "slice_muldef", "sweep_two", "sweep_probe"]
+              "slice_mul3", "slice_muldef", "sweep_two", "sweep_probe", "kwtwo", "kwgainprobe", "nestw", "failempty"]
 # pipelines holding two DIFFERENT generated classes of the same family (same module + qualname, different parameter tables / bindings)
 SAME_FAMILY_PROGS = [
     ("sweep_src", "slice_mul3", "slice_muldef"), ("sweep_src", "slice_muldef", "slice_mul3"), ("sweep_src", "slice_mul", "slice_muldef", "sum"),
@@ -25,6 +25,10 @@ SAME_FAMILY_PROGS = [
     ("sweep_src", "slice_probe", "sum", "probe_r"), ("src", "sink_cfg", "sink_ctx", "sink"), ("src", "mul3", "mul", "muldef"),
 ]
 ALPHA_SMALL = ["src", "mul", "muldef", "fail", "badw", "interrupt", "abort", "sum", "probe_factor", "ren_r_factor", "bogus", "probe_nokey", "sink"]
+
+
+# the 7 distinct option sets of the detail flags {hash, repr, context} (+ odd spellings of two of them)
+DETAIL_SETS = ["hash", "repr", "context", "all", "hash,repr", "hash,context", "repr,context", " Repr , CONTEXT,bogus", "bogus"]
 
 
 def open_fds_on(path_prefix: str) -> List[str]:
@@ -62,10 +66,10 @@ def judge_case(prog, ctx, detail, mode, scratch) -> Tuple[Optional[Tuple[str, st
     if ref.status != real.status or ref.error != real.error or (ref.status == "fail" and ref.index != real.index):
         return ("traced-run-outcome-differs-from-reference",
                 f"reference {ref.status} {ref.error}@{ref.index}; traced run {real.status} {real.error}@{real.index}: {real.exc!r}"), info
-    if ref.error == "ValueError":
-        from verif_lib.components import THE_ERROR
+    if ref.error in ("ValueError", "RuntimeError"):
+        from verif_lib.components import EMPTY_ERROR, THE_ERROR
 
-        if real.exc is not THE_ERROR:
+        if real.exc is not (THE_ERROR if ref.error == "ValueError" else EMPTY_ERROR):
             return ("exception-not-original", f"caller received {real.exc!r}, not the object the processor raised"), info
     started = len(prog) if returned else (0 if ref.status == "construct" else ref.index + 1)
     if mode == "dir" and len(files) > 1:
@@ -163,21 +167,21 @@ def _worker(chunk):
 def plan(tier: str):
     if tier == "quick":
         progs = gen.programs(ALPHA_FULL, [1, 2]) + gen.programs(ALPHA_SMALL, [3])
-        details, modes = ["hash", "all"], ["file", "dir"]
+        details, modes = ["hash", "repr", "context", "all"], ["file", "dir"]
     else:
         progs = gen.programs(ALPHA_FULL, [1, 2, 3]) + gen.programs(ALPHA_SMALL, [4])
-        details, modes = ["hash", "repr", "context", "all"], ["file", "dir"]
+        details, modes = list(DETAIL_SETS), ["file", "dir"]
     progs = list(progs) + list(SAME_FAMILY_PROGS)
     jobs = []
     for i, p in enumerate(sorted(set(progs))):
         if len(p) <= 2:
-            for d in details:
-                for m in modes:
+            for j, d in enumerate(details):
+                for m in (modes if tier != "quick" or len(p) == 1 else [modes[(i + j) % 2]]):
                     jobs.append((p, d, m))
         else:
-            # longer programs: rotate through the detail x mode grid (every combination occurs for every failure kind/index)
-            k = i % (len(details) * len(modes))
-            jobs.append((p, details[k % len(details)], modes[k // len(details)]))
+            # longer programs: rotate through the (all 7 distinct flag sets) x mode grid (every combination occurs for every failure kind/index)
+            k = i % (len(DETAIL_SETS) * len(modes))
+            jobs.append((p, DETAIL_SETS[k % len(DETAIL_SETS)], modes[k // len(DETAIL_SETS)]))
     return jobs
 
 
